@@ -130,8 +130,8 @@ pub fn family(tier: Tier) -> Vec<Config> {
                             cfg.plan.outcomes = outcomes;
                             cfg.plan.world_new = worlds;
                             let ngates = nsc * (if gates == GateMode::All { 5 } else { 2 }) + retry * 2;
-                            if ngates > 6 {
-                                cfg.bound = Some(if tier == Tier::Quick { 2 } else { 4 });
+                            if ngates > (if tier == Tier::Quick { 6 } else { 8 }) {
+                                cfg.bound = Some(if tier == Tier::Quick { 2 } else { 5 });
                             }
                             cfg.max_execs = if tier == Tier::Quick { 4_000 } else { 400_000 };
                             cfg.name = format!(
